@@ -447,23 +447,25 @@ class Impl:
         from fim.graph.abc_property_graph import GraphFormat
         return self.graph(gid).serialize_graph(format=GraphFormat.GRAPHML if fmt == "graphml" else GraphFormat.JSON_NODELINK)
 
-    def write(self, text):
+    def write(self, text, name=None):
+        """a fresh file for every text, or - with `name` - the file of that name again (a path that is re-used for
+        another text later in the same process)"""
         self.nfile += 1
-        p = os.path.join(self.tmp, "g%d.txt" % self.nfile)
+        p = os.path.join(self.tmp, name or "g%d.txt" % self.nfile)
         with open(p, "w", encoding="utf-8", newline="") as f:
             f.write(text)
         return p
 
-    def import_(self, entry, text, gid=None):
-        """returns the graph id of the imported graph"""
+    def import_(self, entry, text, gid=None, name=None):
+        """returns the graph id of the imported graph; `name`: the file entry points go through that (re-used) file name"""
         if entry == "string":
             return self.imp.import_graph_from_string(graph_string=text, graph_id=gid).graph_id
         if entry == "file":
-            return self.imp.import_graph_from_file(graph_file=self.write(text), graph_id=gid).graph_id
+            return self.imp.import_graph_from_file(graph_file=self.write(text, name), graph_id=gid).graph_id
         if entry == "string_direct":
             return self.imp.import_graph_from_string_direct(graph_string=text).graph_id
         if entry == "file_direct":
-            return self.imp.import_graph_from_file_direct(graph_file=self.write(text)).graph_id
+            return self.imp.import_graph_from_file_direct(graph_file=self.write(text, name)).graph_id
         raise ValueError(entry)
 
     def has_graph(self, gid):
@@ -507,6 +509,53 @@ def snapshot(st, gid):
         edges.append([sorted([a, b]), sorted([k, tv(x)] for k, x in d.items())])
     edges.sort(key=lambda e: json.dumps(e, ensure_ascii=True))
     return {"nodes": nodes, "edges": edges, "graph_ids": sorted({json.dumps(tv(d.get("GraphID"))) for _, d in g.nodes(data=True)})}
+
+
+def public_diffs(im, gid, limit=3):
+    """the graph as the PUBLIC accessors show it (list_all_node_ids, get_node_properties, get_link_properties - they go through
+    the node look-up helper of the mixin, which may keep state of its own) against the graph as it lies in the store.
+    None when the accessors' contract does not apply (NodeIDs not unique non-empty strings); else a list of differences"""
+    G = im.nx(gid)
+    own = [(n, d) for n, d in G.nodes(data=True) if d.get("GraphID") == gid]
+    nids = [d.get("NodeID") for _, d in own]
+    if not own or not all(isinstance(x, str) and x for x in nids) or len(set(nids)) != len(nids):
+        return None
+    g = im.graph(gid)
+    out = []
+
+    def typed(d):
+        return sorted((k, type(v).__name__, repr(v)) for k, v in d.items())
+    try:
+        listed = sorted(g.list_all_node_ids())
+    except Exception as e:
+        listed = "raises %s" % type(e).__name__
+    if listed != sorted(nids):
+        out.append(["list_all_node_ids", str(listed)[:200], str(sorted(nids))[:200]])
+    idx = {}
+    for n, d in own:
+        idx[n] = d["NodeID"]
+        if "Class" not in d:
+            continue
+        try:
+            labels, props = g.get_node_properties(node_id=d["NodeID"])
+            got = [list(labels), typed(props)]
+        except Exception as e:
+            got = "raises %s" % type(e).__name__
+        want = [[d["Class"]], typed({k: v for k, v in d.items() if k != "Class"})]
+        if got != want and len(out) < limit:
+            out.append(["get_node_properties", d["NodeID"], str(got)[:300], str(want)[:300]])
+    for u, v, d in G.edges(data=True):
+        if u not in idx or v not in idx or "Class" not in d or u == v:
+            continue
+        try:
+            kind, props = g.get_link_properties(node_a=idx[u], node_b=idx[v])
+            got = [kind, typed(props)]
+        except Exception as e:
+            got = "raises %s" % type(e).__name__
+        want = [d["Class"], typed({k: x for k, x in d.items() if k != "Class"})]
+        if got != want and len(out) < limit:
+            out.append(["get_link_properties", idx[u], idx[v], str(got)[:300], str(want)[:300]])
+    return out
 
 
 def node_ids(im, gid):
@@ -644,12 +693,21 @@ def build_raw(g, spec):
         g.update_node_property(node_id=nid, prop_name=name, prop_val=v)
 
 
-def mutate_graph(g, st_snapshot_nids, seed):
-    """edit the held graph after it was saved: update / add node / add link / delete node, chosen from `seed`"""
+def mutate_graph(g, st_snapshot_nids, seed, how=None):
+    """edit the held graph after it was saved: update / add node / add link / delete node, chosen from `seed`;
+    how="del-first": the node with the lowest internal number goes first, so that the numbering of the held model has a gap
+    (a copy imported from its text is numbered differently)"""
     import random as _r
     rng = _r.Random("C01/mutate/%s" % seed)
     nids = list(st_snapshot_nids)
     done = []
+    if how == "del-first" and len(nids) >= 2:
+        try:
+            g.delete_node(node_id=nids[0])
+            nids.pop(0)
+            done.append("del_first")
+        except Exception:
+            pass
     for _ in range(rng.choice([1, 2, 3])):
         op = rng.choice(["update", "update", "add_node", "add_link", "del_node"])
         try:
